@@ -143,6 +143,7 @@ fn sender_writer(cfg: &RunCfg, oversize_stage: bool) -> Outcome {
 
     let mut poll_writer = |fut: &mut Option<WFut>, wstate: &mut WriterState, seen: &mut u64| -> Option<Outcome> {
         if let Some(f) = fut.as_mut() {
+            sim_core::heartbeat();
             *seen = cw.0.load(Ordering::SeqCst);
             let mut cx = Context::from_waker(&waker);
             let _ = sim_core::take_last_panic();
